@@ -11,7 +11,7 @@ US = {'re_match': 10, 'strlen': 12, 'same': 40, 'vs_copy': 40}
 HARNESSES = {}; QUERIES = []
 for L in range(0, 7):
     HARNESSES['c19_l%d' % L] = h(L)
-    QUERIES.append(dict(name='validate_name_unit_len%d' % L, harness='c19_l%d' % L, entry='h_validate', unwind=L + 4, unwindset=US, rec_unwind=3, timeout=900,
+    QUERIES.append(dict(name='validate_name_unit_len%d' % L, harness='c19_l%d' % L, entry='h_validate', unwind=max(L + 4, 6), unwindset=US, rec_unwind=3, timeout=900,
                         tier='quick' if L in (0, 1, 3) else 'thorough',
                         shape='every byte string of length %d (all byte values incl. NUL, no terminator, exactly sized buffer) as instrument name and as unit' % L))
 def extra_engine(args, work):
